@@ -1,5 +1,5 @@
 // C09 op interpreter shared by user.c and obj.c (textually included)
-//   ok | err | cerr | dest:<oid|me> | co:<delay>:<tag> | hb:<n> | w:<text> | meh:<mode>
+//   ok | err | cerr | dest:<oid|me> | co:<delay>:<tag> | hb:<n> | w:<text> | meh:<mode> | it:<tag>
 #include "/include/vcommon.h"
 #define REG "/c09/reg"
 string oid = "?";
@@ -7,6 +7,7 @@ string oid = "?";
 void create () { seteuid (getuid ()); }
 void set_oid (string s) { oid = s; REG->reg (s, this_object ()); }
 
+void it_fire (string line, string tag);
 void do_op (string s) {
   string *w = explode (s, ":");
   object o;
@@ -40,6 +41,10 @@ void do_op (string s) {
   case "meh":
     REG->set_meh (w[1]);
     break;
+  case "it":
+    VL ("x it " + oid + " " + w[1]);
+    input_to ("it_fire", 0, w[1]);
+    break;
   default:
     VL ("badop " + s);
   }
@@ -58,4 +63,5 @@ void run (string kind) {
 }
 
 void heart_beat () { VL ("t hb " + oid); run ("hb"); }
+void it_fire (string line, string tag) { VL ("t it " + oid + " " + tag + " " + line); run ("it:" + tag); }
 void co_fire (string tag) { VL ("t co " + oid + " " + tag); run ("co:" + tag); }
